@@ -365,6 +365,15 @@ def run(binp, tier, scratch, workers=16):
             (["remove", "s2"], True, {"s1": ("a.example.com", "/", t1, "running", "no")}),
             (["deploy", "s3", "--target", t2], True, {"s1": ("a.example.com", "/", t1, "running", "no"), "s3": ("*", "/", t2, "running", "no")}),
             (["remove", "s1"], True, {"s3": ("*", "/", t2, "running", "no")}),
+            # TLS and plain services mixed, TLS ones sorting before and after the plain one (automatic TLS: no certificate is requested until a handshake)
+            (["deploy", "a0", "--target", t1, "--host", "tls0.example.com", "--tls"], True, {"a0": ("tls0.example.com", "/", t1, "running", "yes"), "s3": ("*", "/", t2, "running", "no")}),
+            (["deploy", "z9", "--target", t3, "--host", "tls9.example.com", "--tls"], True,
+             {"a0": ("tls0.example.com", "/", t1, "running", "yes"), "s3": ("*", "/", t2, "running", "no"), "z9": ("tls9.example.com", "/", t3, "running", "yes")}),
+            (["deploy", "m5", "--target", t1, "--host", "plain5.example.com"], True,
+             {"a0": ("tls0.example.com", "/", t1, "running", "yes"), "m5": ("plain5.example.com", "/", t1, "running", "no"), "s3": ("*", "/", t2, "running", "no"), "z9": ("tls9.example.com", "/", t3, "running", "yes")}),
+            (["remove", "a0"], True, {"m5": ("plain5.example.com", "/", t1, "running", "no"), "s3": ("*", "/", t2, "running", "no"), "z9": ("tls9.example.com", "/", t3, "running", "yes")}),
+            (["remove", "z9"], True, {"m5": ("plain5.example.com", "/", t1, "running", "no"), "s3": ("*", "/", t2, "running", "no")}),
+            (["remove", "m5"], True, {"s3": ("*", "/", t2, "running", "no")}),
             (["remove", "s3"], True, {}),
         ]
         for args, ok, want_list in steps:
